@@ -65,6 +65,10 @@ _OOO_NAMESPACES = {
     "xsi": "http://www.w3.org/2001/XMLSchema-instance",
 }
 _NUMBER_COLUMNS_REPEATED = "{" + _OOO_NAMESPACES["table"] + "}number-columns-repeated"
+_TABLE_ROW = "{" + _OOO_NAMESPACES["table"] + "}table-row"
+_TABLE_ROW_CONTAINERS = tuple(
+    "{" + _OOO_NAMESPACES["table"] + "}" + name for name in ("table-header-rows", "table-row-group", "table-rows")
+)
 _TEXT_COUNT = "{" + _OOO_NAMESPACES["text"] + "}c"
 _TEXT_LINE_BREAK = "{" + _OOO_NAMESPACES["text"] + "}line-break"
 _TEXT_SPACES = "{" + _OOO_NAMESPACES["text"] + "}s"
@@ -257,6 +261,21 @@ def _ods_text_parts(element, location):
             yield child.tail
 
 
+def _ods_table_rows(parent_element):
+    """
+    The ``table:table-row`` elements in ``parent_element`` in the order they
+    show up in the sheet, including rows that are part of a group of header
+    rows (``table:table-header-rows``), plain rows (``table:table-rows``) or
+    an outline (``table:table-row-group``).
+    """
+    for element in parent_element:
+        if element.tag == _TABLE_ROW:
+            yield element
+        elif element.tag in _TABLE_ROW_CONTAINERS:
+            for table_row in _ods_table_rows(element):
+                yield table_row
+
+
 def ods_rows(source_ods_path, sheet=1):
     """
     Rows stored in ODS document ``source_ods_path`` in ``sheet``.
@@ -305,7 +324,7 @@ def ods_rows(source_ods_path, sheet=1):
     location = errors.Location(source_ods_path, has_cell=True, has_sheet=True)
     for _ in range(sheet - 1):
         location.advance_sheet()
-    for table_row in _findall(table_element, "table:table-row", namespaces=_OOO_NAMESPACES):
+    for table_row in _ods_table_rows(table_element):
         row = []
         for table_cell in _findall(table_row, "table:table-cell", namespaces=_OOO_NAMESPACES):
             repeated_text = table_cell.attrib.get(_NUMBER_COLUMNS_REPEATED, "1")
